@@ -1,6 +1,5 @@
 # lib/props/C13.py — per-record analysis values equal their definitions.
-CLAIMED = False
-NOT_YET = "check under construction (nothing is claimed for it yet)"
+CLAIMED = True
 
 CFG = dict(
     rule="records built by the harness (kinds: constant, near-constant at full scale with long pre-trigger, full-scale alternation, "
